@@ -171,7 +171,9 @@ func transformLinkReferenceSpan(source []byte, nodes []*Inline, span Span) strin
 			}
 		}
 	}
-	return cases.Fold().String(strings.TrimSpace(sb.String()))
+	// Runs of spaces, tabs and line endings were collapsed to a single space above;
+	// other Unicode white space (like U+00A0) is part of the label.
+	return cases.Fold().String(strings.Trim(sb.String(), " "))
 }
 
 // ChildCount returns the number of children the node has.
